@@ -3,8 +3,15 @@
 #include "rkcommon/utility/Observer.h"
 #include "rkcommon/utility/TimeStamp.cpp"
 using namespace rkcommon::utility;
+#include <sched.h>
 #ifndef PH
 #define PH 2
+#endif
+#ifndef PREEMPT
+#define PREEMPT 2
+#endif
+#ifndef HSTEPS
+#define HSTEPS 4
 #endif
 
 // Object lifecycles (who is created / destroyed when) are fixed per entry; the notification and poll pattern in between
@@ -95,8 +102,11 @@ VP_ENTRY vp_main_timestamp_threads()
 {
   vp_spawn(ts_worker, (void *)0);
   vp_spawn(ts_worker, (void *)1);
-#ifdef VP_NATIVE_BUILD
+#if defined(VP_NATIVE_BUILD)
   while (!(g_done[0] && g_done[1])) {}
+#elif defined(VP_PATH)
+  vp_sched(PREEMPT);
+  for (int spin = 0; spin < 100000 && !(g_done[0] && g_done[1]); spin++) sched_yield();
 #else
   vp_assume(g_done[0] && g_done[1]);
 #endif
@@ -104,3 +114,27 @@ VP_ENTRY vp_main_timestamp_threads()
   vp_assert(g_vals[0][0] != g_vals[1][0] && g_vals[0][0] != g_vals[1][1] && g_vals[0][1] != g_vals[1][0] && g_vals[0][1] != g_vals[1][1], "stamps of different threads are distinct");
   vp_reach("end");
 }
+
+#ifdef VP_PATH
+// every history of HSTEPS actions over one observable and up to three observers: create / destroy observer k, notify, poll k,
+// destroy the observable; checked against the reference (pending flag per observer); dangling pointers are memory obligations
+VP_ENTRY vp_main_observer_hist()
+{
+  vp_nothrow(true);
+  Observable *obl = new Observable();
+  Observer *o[3] = {nullptr, nullptr, nullptr}; bool pending[3] = {false, false, false}; bool bound[3] = {false, false, false};
+  for (int s = 0; s < HSTEPS; s++) {
+    unsigned a = vp_pick(11);
+    if (a < 3) { unsigned k = a; if (o[k] || !obl) continue; o[k] = new Observer(*obl); pending[k] = false; bound[k] = true; }
+    else if (a < 6) { unsigned k = a - 3; if (!o[k]) continue; delete o[k]; o[k] = nullptr; }
+    else if (a < 9) { unsigned k = a - 6; if (!o[k]) continue; bool w = o[k]->wasNotified();
+                      vp_assert(w == (obl != nullptr && pending[k]), "wasNotified <=> its observable notified since this observer's previous poll or creation (false once the observable is gone)"); pending[k] = false; }
+    else if (a == 9) { if (!obl) continue; obl->notifyObservers(); for (int k = 0; k < 3; k++) if (o[k]) pending[k] = true; }
+    else { if (!obl) continue; delete obl; obl = nullptr; }
+  }
+  for (int k = 0; k < 3; k++) if (o[k]) { bool w = o[k]->wasNotified(); vp_assert(w == (obl != nullptr && pending[k]), "final poll"); vp_assert(!o[k]->wasNotified(), "a second poll without a new notification is false"); }
+  for (int k = 2; k >= 0; k--) delete o[k];
+  delete obl;
+  vp_reach("end");
+}
+#endif
